@@ -17,6 +17,24 @@ pub enum Event {
     /// Use [`Event::custom`] to make this variant.
     Custom(String, String),
 }
+/// Splits `data` into the lines of an event-stream `data` field.
+/// Treats CRLF, LF, and CR as line terminators, like event-stream parsers do.
+/// Returns one more line than the number of terminators, so empty data yields one empty line.
+fn data_lines(data: &str) -> impl Iterator<Item = &str> {
+    let mut rest = Some(data);
+    std::iter::from_fn(move || {
+        let s = rest?;
+        if let Some(n) = s.find(['\r', '\n']) {
+            let terminator_len = if s[n..].starts_with("\r\n") { 2 } else { 1 };
+            rest = Some(&s[(n + terminator_len)..]);
+            Some(&s[..n])
+        } else {
+            rest = None;
+            Some(s)
+        }
+    })
+}
+
 impl Event {
     /// # Errors
     /// Returns an error when `event` contains newlines.
@@ -43,7 +61,7 @@ impl Event {
                 data
             }
         };
-        for line in data.lines() {
+        for line in data_lines(data) {
             write!(buf, "data: {line}\n")?;
         }
         Ok(original_buf_len - buf.len())
@@ -58,7 +76,7 @@ impl Event {
                 data
             }
         };
-        for line in data.lines() {
+        for line in data_lines(data) {
             write!(buf, "data: {line}\n").unwrap();
         }
     }
